@@ -57,9 +57,15 @@ func VerifC02_CustomDownload() {
 	// what the agent wrote
 	agentFile := root + "/lfs/tmp/agent-output"
 	delivered := expected
-	if verifChoose("agent.file", 2) == 1 {
+	switch verifChoose("agent.file", 3) {
+	case 1: // something else
 		delivered = verifNondetString("agent.content")
 		verifAssume(len(delivered) <= 60 && delivered != expected)
+		verifAssume(verifHashHex([]byte(delivered)) != oid)
+	case 2: // the object followed by more bytes
+		extra := verifNondetString("agent.trailing.bytes")
+		verifAssume(len(extra) >= 1 && len(extra) <= 20)
+		delivered = expected + extra
 		verifAssume(verifHashHex([]byte(delivered)) != oid)
 	}
 	verifFSWrite(agentFile, delivered, 0600)
